@@ -120,6 +120,8 @@ class Printer:
             right = self.expr(n.args[1], ctx='in' if op in ('IN', 'NOT IN') else None)
             if op in ('IN', 'NOT IN') and isinstance(n.args[1], A.Select):
                 right = f'({self.select(n.args[1])})'
+            elif op in ('IN', 'NOT IN') and not isinstance(n.args[1], (A.Tuple, A.Parameter)):
+                right = f'({right})'      # a one-element list is parsed as a parenthesised expression
             return f'({left} {op} {right})'
         if isinstance(n, A.Function):
             if n.namespace:
